@@ -135,6 +135,27 @@ class CallRedirect(ast.NodeTransformer):
     visit_AsyncFunctionDef = visit_FunctionDef
 
 
+_MUTATORS = {"append", "extend", "insert", "pop", "remove", "clear", "sort", "reverse", "update", "add", "discard", "setdefault", "popitem", "appendleft"}
+
+
+def _mutated_names(stmts):
+    """Local names whose OBJECT the statements may change in place: receivers of mutating container
+    methods, and names that are subscripted / augmented on the store side (x[i] = .., x[i] += .., del x[i])."""
+    out = []
+
+    def add(n):
+        if isinstance(n, ast.Name) and n.id not in out:
+            out.append(n.id)
+
+    for s_ in stmts:
+        for n in ast.walk(s_):
+            if isinstance(n, ast.Call) and isinstance(n.func, ast.Attribute) and n.func.attr in _MUTATORS:
+                add(n.func.value)
+            elif isinstance(n, ast.Subscript) and isinstance(n.ctx, (ast.Store, ast.Del)):
+                add(n.value)
+    return out
+
+
 def _assigned_names(stmts):
     """Names bound by the statements (not descending into nested function/class bodies)."""
     out = []
@@ -245,11 +266,15 @@ class LoopInstrumenter(ast.NodeTransformer):
         if spec is None:
             return node
         names = [n for n in _assigned_names(node.body) if not n.startswith("__vc")]
-        self.done[key] = dict(kind="while", line=node.lineno, havoc=names)
+        # objects changed in place by the body (list.append, x[i] = ..) and everything the contract lists
+        mutated = [n for n in _mutated_names(node.body) + list(spec.havoc) if n not in names and not n.startswith("__vc")]
+        self.done[key] = dict(kind="while", line=node.lineno, havoc=names + mutated)
         K = repr(key)
         pre = [f"__vc_loop__.enter({K}, locals())", "__vc_l = locals()"]
         for v in names:
             pre.append(f"if {v!r} in __vc_l: {v} = __vc_loop__.havoc({K}, {v!r}, __vc_l[{v!r}])")
+        for v in mutated:
+            pre.append(f"if {v!r} in __vc_l: {v} = __vc_loop__.havoc_mutated({K}, {v!r}, __vc_l[{v!r}])")
         pre.append(f"__vc_loop__.assume_inv({K}, locals())")
         pre_nodes = _parse_stmts("\n".join(pre))
         body = _ContinueRewriter(lambda: _parse_stmts(f"__vc_loop__.preserve({K}, locals())")).visit(
@@ -271,13 +296,16 @@ class LoopInstrumenter(ast.NodeTransformer):
         for n in ast.walk(node.target):
             if isinstance(n, ast.Name) and n.id not in names:
                 tnames.append(n.id)
-        self.done[key] = dict(kind="for", line=node.lineno, havoc=names)
+        mutated = [n for n in _mutated_names(node.body) + list(spec.havoc) if n not in names and not n.startswith("__vc")]
+        self.done[key] = dict(kind="for", line=node.lineno, havoc=names + mutated)
         K = repr(key)
         uid = abs(hash(key)) % 100000
         it, kk = f"__vc_it_{uid}", f"__vc_k_{uid}"
         pre = [f"{kk} = 0", f"__vc_loop__.enter({K}, locals(), {it}, {kk})", "__vc_l = locals()"]
         for v in names:
             pre.append(f"if {v!r} in __vc_l: {v} = __vc_loop__.havoc({K}, {v!r}, __vc_l[{v!r}])")
+        for v in mutated:
+            pre.append(f"if {v!r} in __vc_l: {v} = __vc_loop__.havoc_mutated({K}, {v!r}, __vc_l[{v!r}])")
         pre.append(f"{kk} = __vc_loop__.havoc_index({K}, {it})")
         pre.append(f"__vc_loop__.assume_inv({K}, locals(), {it}, {kk})")
         begin = ast.Assign(
